@@ -17,6 +17,8 @@ func init() {
 			e.Derived = append(e.Derived,
 				ens.Derived{Func: "ssv/protocol/v2/ssv/runner.BaseRunner.ShouldProcessDuty", Name: "newer-slot-or-fresh",
 					Alts: [][]string{{"lt(p0.QBFTController.Height, p1.Slot)"}, {"eq(0, p0.QBFTController.Height)"}, {"eq(0:Height, p0.QBFTController.Height)"}}},
+				ens.Derived{Func: "ssv/protocol/v2/qbft/controller.Controller.UponDecided", Name: "height-covers-decided",
+					Alts: [][]string{{"stored(p0.Height, p2.Message.Height)"}, {"le(p2.Message.Height, p0.Height)"}}},
 				ens.Derived{Func: "ssv/protocol/v2/ssv/validator.Validator.Start", Name: "highest-loaded-or-no-controller",
 					Alts: [][]string{{"called(ssv/protocol/v2/qbft/controller.Controller.LoadHighestInstance(*))"}, {"isnil(*.QBFTController)"}}},
 			)
@@ -53,6 +55,12 @@ func runC15(c *core.Ctx) {
 	})
 	atStores(c, "C15-R1", ctrl+"UponDecided", ctrlPkg+".Controller.Height", []Req{
 		{"future-only", "lt(p0.Height, p2.Message.Height)", "a decided message may only raise the height"},
+	})
+	// every accepted decided message leaves the controller at or above its height — whichever branch
+	// (new instance, undecided instance, already decided instance) handled it: otherwise a height the
+	// node has learned to be decided can be started again
+	ensures(c, "C15-R1", ctrl+"UponDecided", "err=nil", []Req{
+		{"height-covers-decided", "or(height-covers-decided)", "after an accepted decided message for height h the controller height must be ≥ h on every path"},
 	})
 	ensures(c, "C15-R1", ctrl+"LoadHighestInstance", "r0=nonnil,err=nil", []Req{
 		{"height-from-stored", "stored(p0.Height, " + cN + "Controller.getHighestInstance(p0, p1[:])#0.State.Height)", "after restart the controller resumes with the stored highest height"},
